@@ -790,6 +790,8 @@ class Flow:
                     continue
                 if isinstance(s, ast.Assign) and len(s.targets) == 1 and isinstance(s.targets[0], ast.Name) and fors:
                     temps.append((s.targets[0].id, s.value))
+                if isinstance(s, ast.AnnAssign) and isinstance(s.target, ast.Name) and s.value is not None and fors:
+                    temps.append((s.target.id, s.value))
                 if isinstance(s, ast.Expr) and isinstance(s.value, ast.Call) and isinstance(s.value.func, ast.Attribute) and \
                         isinstance(s.value.func.value, ast.Name) and s.value.func.value.id == name:
                     sites.append((s.value.func.attr, s.value, tuple(fors), tuple(conds), tuple(temps)))
@@ -1006,7 +1008,31 @@ class Flow:
             return self._call("__idx__", itx.args[0].args[0])
         if cn == "zip" and path:
             v = self._call("__elem__", itx.args[path[0]]) if path[0] < len(itx.args) else self._call("__unk__")
-            for i in path[1:]:
+            rest = list(path[1:])
+            # zip(X, [g(s) for s in X]): the k-th element of the second list is g(<k-th element of X>) - a per-element value that was
+            # computed in a loop of its own and is walked in step with X
+            if path[0] < len(itx.args):
+                a = itx.args[path[0]]
+                while isinstance(a, ast.Call) and call_name(a) in ("list", "tuple") and len(a.args) == 1:
+                    a = a.args[0]
+                if isinstance(a, (ast.ListComp, ast.GeneratorExp)) and len(a.generators) == 1 and not a.generators[0].ifs:
+                    g = a.generators[0]
+                    others = [x for j, x in enumerate(itx.args) if j != path[0]]
+                    same = [x for x in others if " ".join(ast.unparse(x).split()) == " ".join(ast.unparse(g.iter).split())]
+                    if same:
+                        mapping = {}
+
+                        def bind(t, p):
+                            if isinstance(t, ast.Name):
+                                mapping[t.id] = self._iter_value_expanded(same[0], p, depth, st) if p else self._call("__elem__", same[0])
+                            elif isinstance(t, (ast.Tuple, ast.List)):
+                                for i_, x_ in enumerate(t.elts):
+                                    bind(x_, p + (i_,))
+                        bind(g.target, ())
+                        v = _subst_names(copy.deepcopy(a.elt), mapping)
+                        while rest and isinstance(v, (ast.Tuple, ast.List)) and isinstance(rest[0], int) and rest[0] < len(v.elts):
+                            v = v.elts[rest.pop(0)]
+            for i in rest:
                 v = self._call("__item__", v, ast.Constant(value=i))
             return v
         if cn in ("keys",) and isinstance(itx.func, ast.Attribute) and not path:
